@@ -21,7 +21,8 @@ PROPS['C01'] = dict(
                  'single allocation request > 256 MiB for an input <= 64 KiB counts as disproportionate memory'],
     stages=[
         dict(name='fuzz', variant='asan', harness='c01_music.cpp', quick=16000, thorough=250000),
-        dict(name='sweep', variant='asan', harness='c01_music.cpp', quick=6000, thorough=24000, opts=dict(files=4), ),
+        dict(name='sweep', variant='asan', harness='c01_music.cpp', quick=8000, thorough=8000, opts=dict(files=4)),
+        dict(name='sweep-all', variant='asan', harness='c01_music.cpp', quick=0, thorough=24000, opts=dict(files=12)),
         dict(name='fuzz-nd', variant='asan-nd', harness='c01_music.cpp', quick=0, thorough=100000),
     ],
 )
